@@ -26,10 +26,8 @@
      _loop_rc_handle closes the socket and calls on_disconnect ([SockLost]) and the error code travels back
      through _packet_queue and _send_* to the caller, whose [if rc != MQTT_ERR_SUCCESS: return rc] exits are
      modelled: _update_inflight and _do_on_publish stop, _handle_pubrec has already advanced the state,
-     publish() keeps the message stored in its wait state (counted) and returns MQTT_ERR_CONN_LOST, and the
-     CONNACK retransmission loop - which ignores the result of its own loop_write() calls - goes on over the
-     dead socket: it still appends PUBRELs, and stops at the first message whose PUBLISH it cannot queue,
-     AFTER having advanced that message's state.
+     publish() takes the message out of the window again (state publish, MQTT_ERR_NO_CONN: repaired by e5489c0),
+     and the CONNACK retransmission loop stops at the message whose loop_write() failed (repaired by da8b0f1).
    Mode modelled: no network thread, no on_socket_register_write callback, API calls are not made
    from inside callbacks (in particular not from on_pre_connect / on_socket_open, so the gate
    [_connect_queued] - nothing is written on a new socket before its CONNECT is queued - is never
@@ -256,35 +254,41 @@ Fixpoint update_inflight (c : cfg) (cn : Z) (t : tmode) (infl : Z) (q : list qpk
 
 (* ---- the retransmission loop of _handle_connack (result == 0): _send_publish/_send_pubrel run with
         _in_callback_mutex held (so _packet_queue only appends and reports success), then loop_write() is
-        called once per message, also for messages that needed nothing, and its result is IGNORED; a queued
-        message ends the loop after one more loop_write().  When a write has failed hard the loop goes on
-        without a socket ([alive] = false): _send_pubrel still appends (it does not look at the socket),
-        _send_publish returns MQTT_ERR_NO_CONN - after the state of the message was advanced - and that ends
-        the loop ---- *)
-Fixpoint connack_loop (cn : Z) (t : tmode) (alive : bool) (q : list qpkt) (l : list omsg)
+        called once per message, also for messages that needed nothing; a queued message ends the loop after
+        one more loop_write().  [rc = self.loop_write(); if rc != MQTT_ERR_SUCCESS: return rc] - when that write
+        fails hard the loop ENDS: the message whose packet was just appended is in its wait state (and was
+        counted by _messages_reconnect_reset_out), the remaining messages are left as they are for the next
+        connection.  Result: the stored messages, the queue, the events, is there still a socket ---- *)
+Fixpoint connack_loop (cn : Z) (t : tmode) (q : list qpkt) (l : list omsg)
   : list omsg * list qpkt * list event * bool :=
   match l with
-  | [] => ([], q, [], alive)
+  | [] => ([], q, [], true)
   | m :: l' =>
       match o_st m with
-      | MsQueued => let '(q1, ev1, a1) := lw cn t alive q in (m :: l', q1, ev1, a1)
+      | MsQueued => let '(q1, ev1, a1) := lw cn t true q in (m :: l', q1, ev1, a1)
       | MsPublish =>
-          if alive then
-            let '(q1, ev1, a1) := pq cn t alive q (mkQ (pub_pkt m) false) in
-            let '(r, q2, ev2, a2) := connack_loop cn t a1 q1 l' in
+          let '(q1, ev1, a1) := pq cn t true q (mkQ (pub_pkt m) false) in
+          if a1 then
+            let '(r, q2, ev2, a2) := connack_loop cn t q1 l' in
             (set_st m (wait_of (o_qos m)) :: r, q2, ev1 ++ ev2, a2)
-          else (set_st m (wait_of (o_qos m)) :: l', q, [], false)
+          else (set_st m (wait_of (o_qos m)) :: l', q1, ev1, false)
       | MsResendPubrel =>
           if o_qos m =? 2 then
-            let '(q1, ev1, a1) := pq cn t alive q (mkQ (rel_pkt m) false) in
-            let '(r, q2, ev2, a2) := connack_loop cn t a1 q1 l' in
-            (set_st m MsWaitPubcomp :: r, q2, ev1 ++ ev2, a2)
+            let '(q1, ev1, a1) := pq cn t true q (mkQ (rel_pkt m) false) in
+            if a1 then
+              let '(r, q2, ev2, a2) := connack_loop cn t q1 l' in
+              (set_st m MsWaitPubcomp :: r, q2, ev1 ++ ev2, a2)
+            else (set_st m MsWaitPubcomp :: l', q1, ev1, false)
           else
-            let '(q1, ev1, a1) := lw cn t alive q in
-            let '(r, q2, ev2, a2) := connack_loop cn t a1 q1 l' in (m :: r, q2, ev1 ++ ev2, a2)
+            let '(q1, ev1, a1) := lw cn t true q in
+            if a1 then
+              let '(r, q2, ev2, a2) := connack_loop cn t q1 l' in (m :: r, q2, ev1 ++ ev2, a2)
+            else (m :: l', q1, ev1, false)
       | _ =>
-          let '(q1, ev1, a1) := lw cn t alive q in
-          let '(r, q2, ev2, a2) := connack_loop cn t a1 q1 l' in (m :: r, q2, ev1 ++ ev2, a2)
+          let '(q1, ev1, a1) := lw cn t true q in
+          if a1 then
+            let '(r, q2, ev2, a2) := connack_loop cn t q1 l' in (m :: r, q2, ev1 ++ ev2, a2)
+          else (m :: l', q1, ev1, false)
       end
   end.
 
@@ -332,11 +336,13 @@ Definition do_publish (c : cfg) (s : sess) (q : Z) : sess * list event :=
   else if has_mid mid (out s) then (s1, [Ret tag mid q 15])
   else if window_free c (inflight s) then
     if sock s then
-      (* only MQTT_ERR_NO_CONN takes the message out of the window again: after a hard write failure it stays
-         in its wait state, counted, and publish() returns MQTT_ERR_CONN_LOST (7) *)
+      (* [if rc != MQTT_ERR_SUCCESS]: whenever the PUBLISH could not be sent - also when the write of this very
+         packet failed hard - the message leaves the window again, goes back to state publish and publish()
+         returns MQTT_ERR_NO_CONN (4); the packet it appended stays in the queue until reconnect() drops it *)
       let (s2, ev) := send (with_out s1 (out s ++ [mkO mid q (wait_of q) false tag]) (inflight s + 1))
                            (mkQ (PPublish mid q false tag) true) in
-      (s2, ev ++ [Ret tag mid q (if sock s2 then 0 else 7)])
+      if sock s2 then (s2, ev ++ [Ret tag mid q 0])
+      else (with_out s2 (out s ++ [mkO mid q MsPublish false tag]) (inflight s), ev ++ [Ret tag mid q 4])
     else
       (with_out s1 (out s ++ [mkO mid q MsPublish false tag]) (inflight s), [Ret tag mid q 4])
   else
@@ -387,7 +393,7 @@ Definition do_rx (c : cfg) (s : sess) (p : inpkt) (raises : bool) : sess * list 
   | IConnack rc =>
       let s1 := mkS (out s) (inm s) (inflight s) (last_mid s) (sock s) false true (conn s) (ntag s) (outq s) (blocked s) (failing s) in
       if rc =? 0 then
-        let '(o, q', ev, a) := connack_loop (conn s) (tm s) true (outq s) (out s) in
+        let '(o, q', ev, a) := connack_loop (conn s) (tm s) (outq s) (out s) in
         (settle (with_out s1 o (inflight s)) q' a, Inp p :: ev)
       else (with_sock s1 false, [Inp p; SockLost])
   | IPuback mid | IPubcomp mid =>
